@@ -90,11 +90,11 @@ FAULTS = [
 def cases(tier, seed):
     rng = np.random.default_rng(seed + 2020)
     cs = []
-    for i in range(240 if tier == 'quick' else 9000):
+    for i in range(400 if tier == 'quick' else 9000):
         cs.append(dict(kind='valid', seed=int(rng.integers(0, 2**31)), _cost=8))
     for i in range(60 if tier == 'quick' else 900):
         cs.append(dict(kind='cc', seed=int(rng.integers(0, 2**31)), variant=i % 6, _cost=4))
-    nb = 8 if tier == 'quick' else 300
+    nb = 12 if tier == 'quick' else 300
     for b in range(nb):
         s = int(rng.integers(0, 2**31))
         for f in FAULTS:
@@ -251,13 +251,6 @@ def run_cc(case, r):
             continue
         for k, val in pars.items():
             r.check(getattr(inst[0].params, k) == val, 'user-parameters-win', f'{tag}: {cls.__name__}.params.{k} = {getattr(inst[0].params, k)!r}, the user supplied {val!r}')
-    P = ctrl.MS[0].levels[0].prob
-    from pySDC.core.errors import ConvergenceError
-
-    try:
-        ctrl.run(P.u_exact(0.0), 0.0, 0.1)
-    except ConvergenceError:
-        r.count('cc_run_gave_up')  # the error tolerance of the probe setup is arbitrary; only the set-up is judged here
     r.nontrivial = True
     r.observe('cc_variant', v)
     r.sample = dict(variant=v, order=[(type(ccs[i]).__name__, float(ccs[i].params.control_order)) for i in order])
